@@ -437,3 +437,13 @@ package types
 //@   ensures result.SlashRatio == r.slashRatio   [C15]
 //@   ensures result.SignedBlocksWindow == r.signedBlocksWindow   [C15]
 //@   ensures result.MinSignedBlocks == r.minSignedBlocks   [C15]
+
+// ---- the meta store (chain id, last block, last reward hash): durable key/value writes through tm-db, outside the
+// contracts (frame only; what is written where is anchored at the call sites)
+//@ func (stdb *MetaDB) PutChainID(chainId)
+//@   trusted
+//@   modifies everything
+
+//@ func (stdb *MetaDB) PutLastRewardHash(v)
+//@   trusted
+//@   modifies everything
